@@ -5,7 +5,8 @@
        {"t":"app", "ops":[..registration calls in the order they were made..], ...}
        {"t":"req", "kind", "hostp", "host", "target", "got":{hit,sub,idx}}         (one per request sent)
    This module replays the log with Routing's own operators and actions:
-     TrRegister  folds the registration calls with NewApp / WithRoute / WithWsRoute / WithHost / SubWith*;
+     TrRegister  folds the registration calls with NewApp / WithRoute / WithWsRoute / WithHost / SubWith* /
+                 WithDefaultSubapp / WithWebsocketHandler;
      TrRequest   hands the logged request to the dispatcher;
      HostAbsent / HostStep / RouteStep / DefaultStep (Routing!Next) run get_handler / call_websocket_handler;
      TrCompare   compares the handler the real app used with the dispatcher's result AND with the property's
@@ -28,6 +29,8 @@ FoldApp(a, ops) ==
   ELSE LET o == Head(ops) IN
        FoldApp(IF o.op = "route" THEN WithRoute(a, o.p)
                ELSE IF o.op = "ws" THEN WithWsRoute(a, o.p)
+               ELSE IF o.op = "defsub" THEN WithDefaultSubapp(a, FoldSub(NewSubApp, o.sub))
+               ELSE IF o.op = "wsall" THEN WithWebsocketHandler(a)
                ELSE WithHost(a, o.h, FoldSub(NewSubApp, o.sub)), Tail(ops))
 
 \* class of a request as in MC_Routing!ExpVec: <<class 0..4, shadowed (a later route of the list matches too),
